@@ -29,3 +29,23 @@ void *__wrap_memchr(const void *s, int c, size_t n) {
 }
 int __wrap_memcmp(const void *a, const void *b, size_t n) { if (hx_cost_on) hx_cost_bytes += n; return __real_memcmp(a, b, n); }
 #endif
+
+#ifdef HX_EDGECOV
+/* Edge coverage for the hostile mutator (`asancov` variant): AFL-style map indexed by (previous block ^ current block),
+ * blocks identified by the return address of the compiler-inserted callback.  hx_edge_new counts map cells that were hit
+ * for the first time since the process started; the mutator promotes a mutated case that produced new cells into its pool. */
+#include <stdint.h>
+uint8_t hx_edge_map[1 << 16];
+uint64_t hx_edge_new = 0, hx_edge_cells = 0;
+static uintptr_t hx_edge_prev = 0;
+void __sanitizer_cov_trace_pc(void) {
+    uintptr_t pc = (uintptr_t) __builtin_return_address(0);
+    uintptr_t cur = (pc >> 1) ^ (pc << 7);
+    uint32_t idx = (uint32_t) ((cur ^ hx_edge_prev) & 0xffff);
+    if (!hx_edge_map[idx]) { hx_edge_map[idx] = 1; hx_edge_new++; hx_edge_cells++; }
+    hx_edge_prev = cur >> 1;
+}
+#else
+#include <stdint.h>
+uint64_t hx_edge_new = 0, hx_edge_cells = 0;
+#endif
